@@ -311,16 +311,53 @@ def t2(run, T):
         if idc:
             ids.add(idc[0]["args"][0]["v"])
             class_of_id[idc[0]["args"][0]["v"]] = [c["args"][0]["v"] for c in cls]
-    gd = src_fn(run, "svgbob/src/buffer/cell_buffer.rs", "get_defs", impl_self="CellBuffer")
-    emitted = set()
-    if gd:
-        for c in find_nodes(gd["body"], lambda n: n.get("k") == "call" and n["func"].get("path", "").startswith("Self::") and n["func"]["path"].endswith("_marker")):
-            fnn = c["func"]["path"].split("::")[-1]
-            for fn in find_nodes(v, lambda n: n.get("k") == "fn" and n.get("name") == fnn):
-                idc = find_nodes(fn["body"], lambda n: n.get("k") == "call" and n["func"].get("path") == "id")
-                if idc and idc[0]["args"][0].get("ty") == "str":
-                    emitted.add(idc[0]["args"][0]["v"])
+    # marker definitions emitted by get_defs, resolved on MIR (ids / classes may be parameters of a shared helper)
+    emitted_list = []
+    gdp = prog.method("get_defs", r"cell_buffer::CellBuffer$", "")
+    if gdp:
+        reach_defs = [q for q in prog.reachable([gdp]) if q in prog.bodies and prog.bodies[q]["crate"] == "svgbob"]
+
+        def const_values(path, e, depth=0):
+            """string constants an expression can take, following parameters to the call sites (depth 2)"""
+            e = strip(e)
+            if e[0] == "const" and e[1] == "str":
+                return [e[2]]
+            if e[0] == "param" and not e[2] and depth < 2:
+                out = []
+                for caller, bid, t in prog.callers(path):
+                    if caller in reach_defs and e[1] - 1 < len(t["args"]):
+                        out += const_values(caller, Expr(prog, caller).operand(t["args"][e[1] - 1]), depth + 1)
+                return out
+            return []
+
+        for q in reach_defs:
+            qex = Expr(prog, q)
+            ids_here, cls_here = [], []
+            has_marker = any(re.search(r"svg::tags::(commons::)?marker$", Program.callee_name(t)) for _, t in prog.calls(q))
+            if not has_marker:
+                continue
+            for bid, t in prog.calls(q):
+                n = Program.callee_name(t)
+                if re.search(r"attribute_macros::commons::id$", n):
+                    ids_here.append(const_values(q, qex.operand(t["args"][0])))
+                if re.search(r"attribute_macros::commons::class$", n):
+                    cls_here.append(const_values(q, qex.operand(t["args"][0])))
+            # a helper called k times yields k definitions, position-wise
+            k = max([len(x) for x in ids_here] + [0])
+            for i in range(k):
+                mid = ids_here[0][i] if ids_here and i < len(ids_here[0]) else None
+                mcl = [c[i] if len(c) == k else (c[0] if c else None) for c in cls_here]
+                emitted_list.append((mid, [c for c in mcl if c]))
+    emitted = {m for m, _ in emitted_list if m}
+    dup = sorted({m for m, _ in emitted_list if m and [x for x, _ in emitted_list].count(m) > 1})
+    if dup:
+        run.bad("C14.T2", "marker-id-duplicate/%s" % ",".join(dup), f, "get_defs emits several <marker> elements with id %s: url(#id) references resolve to the first one only" % dup)
+    if emitted_list:
+        class_of_id = {}
+        for m, cl in emitted_list:
+            class_of_id.setdefault(m, cl)
     run.record("marker_ids_emitted", sorted(emitted))
+    run.floor("C14.T2", "marker_definitions", len(emitted_list), 5)
     fill_class = {"Circle": "filled", "OpenCircle": "bg_filled", "BigOpenCircle": "bg_filled"}
     for variant in sorted(built):
         s = names.get(variant)
